@@ -389,6 +389,16 @@ class TotalWorld(OracleWorld):
 
     def binop_hook(self, st, op, a, b):
         base = op.replace("WithOverflow", "")
+        if op in ("Shr", "ShrUnchecked", "BitAnd") and isinstance(a, Sym) and isinstance(b, I) and a.ty in ip.INT_BITS and a.ty not in ("bool", "char") and not a.ty.startswith("i"):
+            # interval arithmetic for the two operations table-index computations use: x >> k and x & mask
+            r = rng_get(st, a)
+            lo, hi = r[0][0], r[-1][1]
+            res = Sym(("bits", op, self.n(st)), a.ty)
+            if op == "BitAnd":
+                st.facts[("rng", res.name)] = ((0, min(hi, b.v)),)
+            else:
+                st.facts[("rng", res.name)] = ((lo >> b.v, hi >> b.v),)
+            return res
         if not op.endswith("WithOverflow") or base not in ("Add", "Sub"):
             if op in ("Lt", "Le", "Gt", "Ge", "Eq", "Ne") and (isinstance(a, Top) or isinstance(b, Top)):
                 return Sym(("unproved-cmp", op, self.n(st)), "bool")
@@ -804,18 +814,16 @@ class TotalWorld(OracleWorld):
         if isinstance(base, Opq) and base.kind != "static":
             ident = ("slice", base.kind, base.data)
             tab = st.facts.get(("idx-of", idx.name)) if isinstance(idx, Sym) else None
-            if tab != ident:
-                self.finding(st, "index", "a slice is indexed with a value that is not the Ok payload of a binary search on that slice")
+            # (whether the index is in bounds is the BoundsCheck assertion MIR puts in front of every indexing:
+            # proved from a binary-search payload, an interval, or reported as unproved-assert)
             ety = "?"
-            if base.kind == "fresh-ref" and isinstance(base.data, tuple):
-                mm = re.match(r"^\[(.*)\]$", str(base.data[0]))
+            if base.kind in ("fresh-ref", "fresh", "const") and isinstance(base.data, tuple):
+                mm = re.match(r"^&?\[(.*?)(;\s*\d+)?\]$", str(base.data[0]))
                 ety = mm.group(1) if mm else "?"
             return ty_.fresh(self.prog, ety, ("elem", self.n(st)))
         if isinstance(base, Opq) and base.kind == "static":
             path = base.data[0]
             tab = st.facts.get(("idx-of", idx.name)) if isinstance(idx, Sym) else None
-            if tab != path:
-                self.finding(st, "index", "%s indexed with a value that is not the Ok payload of a binary search on that table" % path)
             s = self.prog.statics.get(path)
             mm = re.match(r"^\[(.*);\s*\d+\]$", s["ty"]) if s else None
             return ty_.fresh(self.prog, mm.group(1) if mm else "?", ("elem", self.n(st)))
